@@ -41,9 +41,95 @@ type world struct {
 	parked   *mon.Call // reply family: the filler send that is parked on the full queue
 	draining bool
 	outcome  string
+	// rdl: a receive deadline in force on the subject while it is used for SENDING (the other
+	// direction's deadline): the set-up Recv of a request may then time out before the request arrived
+	rdl time.Duration
 }
 
-func (w *world) id() string { return w.sp.Proto + "/" + w.sp.Obj + "/" + w.sp.Op }
+type optVal struct {
+	o int
+	v interface{}
+}
+
+// modeOpts: the options under test that an "inherited" case puts on the socket before the subject
+// context is opened (own deadline, the other direction's deadline, best effort, fail-no-peers).
+func (w *world) modeOpts() []optVal {
+	sp := w.sp
+	own, other := optRD, optSD
+	if sp.Op == "send" {
+		own, other = optSD, optRD
+	}
+	var out []optVal
+	switch sp.Kind {
+	case "dl-inherit":
+		if sp.ODUs > 0 {
+			out = append(out, optVal{other, sp.OD()})
+		}
+		out = append(out, optVal{own, sp.D()})
+	case "be":
+		out = append(out, optVal{optBE, true})
+		if sp.WithDL {
+			out = append(out, optVal{optSD, sp.D()})
+		}
+	case "fnp-none":
+		out = append(out, optVal{optFNP, true})
+		if sp.WithDL {
+			out = append(out, optVal{own, sp.D()})
+		}
+	default:
+		panic("inherited options: kind " + sp.Kind)
+	}
+	return out
+}
+
+// openInheriting sets the mode options on the socket, opens the subject context and takes the
+// options off the socket again (REP/RESPONDENT refuse a zero deadline: an hour there), so that
+// whatever the context does with them it has by inheritance, and contexts opened later (fillers)
+// do not have them.
+func (w *world) openInheriting() (mangos.Context, bool) {
+	sp, c := w.sp, w.c
+	if sp.Op == "send" && sendFam[sp.Proto] == "reply" {
+		fx, err := w.sock.OpenContext() // the filler must not inherit: opened first
+		if err != nil {
+			c.Inconclusive("%s: OpenContext for filler: %v", sp.Proto, err)
+			return nil, false
+		}
+		w.filler = fx
+	}
+	opts := w.modeOpts()
+	for _, ov := range opts {
+		err := w.sock.SetOption(optName[ov.o], ov.v)
+		switch {
+		case err == nil:
+		case err == mangos.ErrBadOption && table[sp.Proto].sock[ov.o]:
+			c.Violate("option-lost/"+sp.Proto+"/sock/"+optName[ov.o], "%s sock: SetOption(%s, %v) = ErrBadOption although the support table lists it", sp.Proto, optName[ov.o], ov.v)
+			return nil, false
+		default:
+			c.Inconclusive("%s sock: SetOption(%s, %v) = %v", sp.Proto, optName[ov.o], ov.v, err)
+			return nil, false
+		}
+	}
+	cx, err := w.sock.OpenContext()
+	if err != nil {
+		c.Inconclusive("%s: OpenContext: %v", sp.Proto, err)
+		return nil, false
+	}
+	for _, ov := range opts {
+		var off interface{} = false
+		if ov.o == optRD || ov.o == optSD {
+			off = time.Duration(0)
+		}
+		if w.sock.SetOption(optName[ov.o], off) != nil {
+			w.sock.SetOption(optName[ov.o], time.Hour)
+		}
+		got, gerr := cx.GetOption(optName[ov.o])
+		c.Logf("socket had %s = %v when the context was opened; the context reads back %v (err %v)", optName[ov.o], ov.v, got, gerr)
+	}
+	c.Count("contexts_opened_with_inherited_options", 1)
+	return cx, true
+}
+
+func (w *world) id() string { return w.sp.Proto + "/" + w.sp.Obj + "/" + w.sp.Op + w.sp.variant() }
 
 func errName(err error) string {
 	switch err {
@@ -103,10 +189,18 @@ func newWorld(c *mon.Case, sp spec) *world {
 	}
 	w.sock.SetOption(mangos.OptionSurveyTime, surveyTime)
 	if sp.Obj == "ctx" {
-		cx, err := w.sock.OpenContext()
-		if err != nil {
-			c.Inconclusive("%s: OpenContext: %v", sp.Proto, err)
-			return nil
+		var cx mangos.Context
+		if sp.Inh {
+			var ok bool
+			if cx, ok = w.openInheriting(); !ok {
+				return nil
+			}
+		} else {
+			var err error
+			if cx, err = w.sock.OpenContext(); err != nil {
+				c.Inconclusive("%s: OpenContext: %v", sp.Proto, err)
+				return nil
+			}
 		}
 		cx.SetOption(mangos.OptionRetryTime, time.Hour)
 		cx.SetOption(mangos.OptionSurveyTime, surveyTime)
@@ -123,7 +217,7 @@ func newWorld(c *mon.Case, sp spec) *world {
 		if w.outcome != "" {
 			c.Count("outcome_"+sp.Kind+"_"+w.outcome, 1)
 		}
-		c.Sig("%s|%s|%s|%s|%s|n%d|q%d|%s|k%d|d%d|%v|%v|%v|%s", sp.Kind, sp.Proto, sp.Obj, sp.Op, sp.Peer, sp.NPipes, sp.Q, sp.State, sp.K, sp.DUs, sp.FNP, sp.WithDL, sp.Left || sp.SurvZero, w.outcome)
+		c.Sig("%s|%s|%s|%s|%s|n%d|q%d|%s|k%d|d%d|%v|%v|%v|%s|%v|o%d", sp.Kind, sp.Proto, sp.Obj, sp.Op, sp.Peer, sp.NPipes, sp.Q, sp.State, sp.K, sp.DUs, sp.FNP, sp.WithDL, sp.Left || sp.SurvZero, w.outcome, sp.Inh, sp.ODUs)
 	})
 	return w
 }
@@ -258,7 +352,31 @@ func (w *world) peerRequest() error {
 
 // prime lets a cooked REP/RESPONDENT endpoint receive a request so that its next Send is legal.
 func (w *world) prime(ep endpoint) bool {
-	return w.setup("peer-request", w.peerRequest) && w.setup("prime-recv", func() error { return w.recv(ep) })
+	if !w.setup("peer-request", w.peerRequest) {
+		return false
+	}
+	if w.rdl == 0 || ep != w.obj {
+		return w.setup("prime-recv", func() error { return w.recv(ep) })
+	}
+	// the subject carries a receive deadline (the other direction's): its Recv may give up before
+	// the request has travelled; the request stays queued for the next Recv
+	for try := 0; try < 200; try++ {
+		call := mon.Go("prime-recv", func() (interface{}, error) { return nil, w.recv(ep) })
+		if !w.c.AwaitOrViolate("harness:setup-stuck:prime-recv/"+w.sp.Proto, "setup step prime-recv", call.Done, mon.AwaitOpts{MaxTimer: w.rdl}) {
+			return false
+		}
+		_, err, _ := call.Result()
+		if err == nil {
+			w.c.Count("setup_steps", 1)
+			return true
+		}
+		if err != mangos.ErrRecvTimeout {
+			w.c.Inconclusive("setup step prime-recv: %v", err)
+			return false
+		}
+	}
+	w.c.Inconclusive("setup step prime-recv: the request did not arrive within 200 receive deadlines of %v", w.rdl)
+	return false
 }
 
 func (w *world) vtSendWaiters() int {
@@ -354,6 +472,7 @@ func (w *world) prepareSend() bool {
 		}) {
 			return false
 		}
+		pre := w.filler
 		w.filler = w.obj
 		if isRaw(sp.Proto) {
 			var hdr []byte
@@ -369,6 +488,8 @@ func (w *world) prepareSend() bool {
 				return false
 			}
 			w.replyHdr = hdr
+		} else if sp.Inh && pre != nil {
+			w.filler = pre // opened before the socket got the options the subject inherited
 		} else if sp.Kind != "nodl" {
 			cx, err := w.sock.OpenContext()
 			if err != nil {
@@ -607,6 +728,13 @@ func (w *world) dlOpt() int {
 		return optSD
 	}
 	return optRD
+}
+
+func (w *world) otherDlOpt() int {
+	if w.sp.Op == "send" {
+		return optRD
+	}
+	return optSD
 }
 
 func (w *world) dropAll() {
